@@ -158,7 +158,7 @@ func compare(exp *AV, o Outcome) diffInfo {
 		if exp.K == 'e' {
 			return diffInfo{ok: true}
 		}
-		return diffInfo{symptom: "unexpected-error", msg: classifyMsg(o.Err.Error()), detail: "error: " + trunc(o.Err.Error(), 300) + "\nexpected " + trunc(exp.Canon(), 600)}
+		return diffInfo{symptom: "unexpected-error", msg: classifyErr(o.Err.Error()), detail: "error: " + trunc(o.Err.Error(), 300) + "\nexpected " + trunc(exp.Canon(), 600)}
 	}
 	if exp.K == 'e' {
 		return diffInfo{symptom: "unexpected-value", detail: "expected an error, got " + reprSafe(o.V)}
@@ -177,6 +177,31 @@ func compare(exp *AV, o Outcome) diffInfo {
 		return diffInfo{symptom: "anomaly", msg: anoms[0].Kind, detail: fmt.Sprintf("members are right but %s (%T prints as %s)", anoms[0].Msg, o.V, reprSafe(o.V))}
 	}
 	return diffInfo{ok: true}
+}
+
+// classifyErr reduces an error message to a class that does not contain the offending values.
+func classifyErr(m string) string {
+	if i := strings.IndexByte(m, '\n'); i >= 0 {
+		m = m[:i]
+	}
+	parts := strings.SplitN(m, ":", 3)
+	if len(parts) >= 2 && strings.HasPrefix(parts[0], "//") {
+		m = parts[0] + ":" + parts[1]
+	} else {
+		m = parts[0]
+	}
+	var b strings.Builder
+	for _, r := range m {
+		if r >= '0' && r <= '9' {
+			continue
+		}
+		b.WriteRune(r)
+	}
+	m = b.String()
+	if len(m) > 48 {
+		m = m[:48]
+	}
+	return m
 }
 
 func mergeFlags(avs ...*AV) []string {
